@@ -46,6 +46,7 @@
     [skips_block] is the "certificate" test of each loop, [pem_code] the return
     code given which blocks the x509 parsers accept), [get_region] /
     [calc_image_offset] (tools.GetRegion / CalcImageOffset after fiano),
+    [parse_acm_after subtype] (tools.ParseACM after fit.ParseSACMData),
     [local_files] (the file decisions of tpmdetection.local).
     - [reg_width id]: the serialised width of a register id (32 for
       TXT.PUBLIC.KEY, 8/4/1 by parser table, [None] = unknown id);
@@ -200,6 +201,15 @@ Theorem C15_ACMInfo_alloc_needs_list_bound : exists total user, lenZ total = 4 /
 Proof. exact P_acm_info_alloc_needs_cap. Qed.
 Print Assumptions C15_ACMInfo_alloc_needs_list_bound.
 
+(** tools.ParseACM once fiano has parsed the header: an ANC module ([subtype] has bit 1) is returned without
+    info tables, otherwise ParseACMInfo decides; total, same allocation bound *)
+Theorem C15_ParseACM_after_total : forall subtype total user,
+  value_or_error (run (parse_acm_after subtype faithful total) user) /\
+  res_alloc (run (parse_acm_after subtype faithful total) user) <= 5 * Z.max (lenZ user) (lenZ total) + 262140 /\
+  (0 < Z.land subtype ACMModuleSubtypeAncModule -> outcome_of (run (parse_acm_after subtype faithful total) user) = Ok ANC_MARK).
+Proof. exact Q_parse_acm_after. Qed.
+Print Assumptions C15_ParseACM_after_total.
+
 (** * 4. TXT register space and BIOSDATA (pkg/tools/txt.go) *)
 
 (** value or error for every image; no loop, at most 22 reads, no length-prefixed allocation *)
@@ -227,6 +237,13 @@ Theorem C15_ParseBIOSData_total : forall d,
   res_alloc (run parse_bios_data d) = 0.
 Proof. exact P_bios_data. Qed.
 Print Assumptions C15_ParseBIOSData_total.
+
+(** a value iff the fixed part (36 bytes) is there and, from version 3 on (SinitFlags, then MleFlags), the
+    flags word behind it; [bios_ver d] = the uint32 at offset 8 *)
+Theorem C15_ParseBIOSData_value_iff : forall d,
+  (exists v, outcome_of (run parse_bios_data d) = Ok v) <-> (36 <= lenZ d /\ (3 <= bios_ver d -> 40 <= lenZ d)).
+Proof. exact Q_bios_data_value_iff. Qed.
+Print Assumptions C15_ParseBIOSData_value_iff.
 
 Theorem C15_ReadACMStatus_total : forall d,
   value_or_error (run (read_acm_status faithful d) d) /\ res_steps (run (read_acm_status faithful d) d) <= 1 /\
